@@ -387,8 +387,13 @@ func (g *gen) simpleOp(depth int) Op {
 	if g.chance(0.4) {
 		a = append(a, g.val(depth+1, true))
 	}
-	if g.chance(0.5) {
+	switch g.r.Intn(5) {
+	case 0, 1:
 		return Op{K: "sprint", A: a}
+	case 2:
+		// a nested HelperForErrorf: takes a second printer, with its own
+		// %w capture state, while the outer call is in flight
+		return Op{K: "errorf", F: Str(g.lit() + "%v %w"), A: []Val{g.simple(), {K: "goerr", ID: 800 + g.r.Intn(50), S: Str("nested " + g.payload())}}}
 	}
 	return Op{K: "sprintf", F: Str(g.format(a)), A: a}
 }
